@@ -962,7 +962,46 @@ def c04_16(ctx):
     return [ctx.ok(spec_r, "parse(serialize(w)) = w for item sizes up to 70000 bytes (12 sizes around the compact-size and script limits)", fn, mod, key="witness-roundtrip")]
 
 
+def c04_17(ctx):
+    """ScriptPubKey.parse on the five standard templates with ARBITRARY hash / program bytes (all zero, all 0xff, the field prime, a value that is
+    not the x coordinate of a curve point, mixed): an output script is 20 or 32 opaque bytes inside a template -- consensus puts no condition
+    on them -- so every such script parses to its template class and re-serialises to the same bytes.  A constructor that validates the
+    bytes (as a key, as a field element) makes a canonically encoded transaction with such an output unparseable"""
+    from sa.cells import ClassRef, Evaluator, FileStandIn, Obj, Raised, Undecided
+    spec = "script:ScriptPubKey.parse"
+    mod, fn = rl.get(ctx, spec)
+    P_ = 2 ** 256 - 2 ** 32 - 977
+    pats32 = [bytes(32), b"\xff" * 32, P_.to_bytes(32, "big"), (P_ - 1).to_bytes(32, "big"), (5).to_bytes(32, "big"), bytes(range(1, 33))]
+    pats20 = [bytes(20), b"\xff" * 20, bytes(range(1, 21))]
+    templates = [("p2pkh", lambda h: b"\x76\xa9\x14" + h + b"\x88\xac", pats20, "P2PKHScriptPubKey"), ("p2sh", lambda h: b"\xa9\x14" + h + b"\x87", pats20, "P2SHScriptPubKey"),
+                 ("p2wpkh", lambda h: b"\x00\x14" + h, pats20, "P2WPKHScriptPubKey"), ("p2wsh", lambda h: b"\x00\x20" + h, pats32, "P2WSHScriptPubKey"),
+                 ("p2tr", lambda h: b"\x51\x20" + h, pats32, "P2TRScriptPubKey")]
+    n = 0
+    try:
+        for label, mk, pats, clsname in templates:
+            for h in pats:
+                n += 1
+                raw = mk(h)
+                try:
+                    ev = Evaluator(ctx.repo, max_steps=3000000)
+                    r = ev.call(spec, [FileStandIn(bytes([len(raw)]) + raw)], self_obj=ClassRef("script", "ScriptPubKey"))
+                    back = ev.call("script:Script.raw_serialize", [], self_obj=r)
+                except Raised as x:
+                    return [ctx.bad(spec, "the %s output script %s (hash / program bytes %s…) cannot be parsed or re-serialised (%s): a canonically encoded transaction "
+                                          "with this output does not round-trip, and the script has no address" % (label, raw.hex()[:20] + "…", h.hex()[:16], x.name), fn, mod, key="template-opaque")]
+                if not isinstance(r, Obj) or r.cls != clsname or back != raw:
+                    return [ctx.bad(spec, "the %s output script with hash / program bytes %s… parses to %s and re-serialises to %s" % (
+                        label, h.hex()[:16], r.cls if isinstance(r, Obj) else r, back.hex()[:24] if isinstance(back, bytes) else back), fn, mod, key="template-opaque")]
+    except Undecided as u:
+        return [ctx.err(spec, "ScriptPubKey.parse not evaluable: %s" % u, fn, mod)]
+    ctx.count("cells", n)
+    return [ctx.ok(spec, "%d (template, bytes) cells: every template-shaped script parses to its class and re-serialises unchanged, whatever its 20 / 32 bytes are" % n, fn, mod,
+                   key="template-opaque")]
+
+
+
 OBLIGATIONS = [
+    ("C04.17", "CELLS opaque template bytes", c04_17),
     ("C04.16", "CELLS witness round trip (bounded)", c04_16),
     ("C04.15", "RANGE accept-set", c04_15),
     ("C04.14", "SHARED", c04_14),
